@@ -29,10 +29,14 @@
 (*   B0 = L0^-1 = <<Adj(L0), Det(L0)>> is the exact Busing-Levy B of the   *)
 (*   cell with metric L0.L0^T), reference orientation U0, stretch          *)
 (*   S = I + e = <<N, d>> (d = 10 or 20, symmetric positive definite),     *)
-(*   rotation R = <<Rn, n>> from ExactLA angles (at most one Pythagorean). *)
+(*   rotation R = <<Rn, n>> from ExactLA angles (one or two Pythagorean).  *)
 (*       ubi0 = L0.U0^T     ub0 = U0.B0      ubi = ubi0.S.R^T              *)
 (*   so that the code's F = ubi^T.ub0^T is R.S (checked: PolarOK).         *)
 (*                                                                         *)
+(* TWO MACHINES live in this module (one set of variables, two behaviour   *)
+(* specifications):                                                        *)
+(*                                                                         *)
+(* Spec  - CASES: one deformation per behaviour (cfg Strain_q / Strain_t)  *)
 (* VARIABLES  stage, ref = <<L0, U0>>, S, R, ubi, F, k (index into MS),    *)
 (*            eref, elab (sequences of the tensors computed so far)        *)
 (* ACTIONS    PickRef, PickStretch, PickRot, Deform, Ref, Lab              *)
@@ -44,6 +48,53 @@
 (*            a lab-frame power would not fit (LabExact false) the lab     *)
 (*            tensor is emitted as R.E_ref.R^T (or left out, den = 0) and  *)
 (*            the harness finishes V^(2m) with python fractions.           *)
+(*                                                                         *)
+(* HSpec - HISTORIES on ONE object (cfg Strain_hist_q / _hist_t /          *)
+(*         _map_t / _map_asis): the strain API is asked repeatedly while   *)
+(*         the object is changed in between.  The law is the same in both  *)
+(*         kinds: EVERY ANSWER IS THE EXACT TENSOR OF THE CURRENT STATE.   *)
+(*   kind "grain"  ImageD11/grain.py:59-64 set_ubi/clear_cache, :148-206   *)
+(*       eps_*; finite_strain.py:46-139 one DeformationGradientTensor      *)
+(*       object with its _svd/_vrs caches (:62-83)                         *)
+(*     state  hst = [base = <<L0, U0b>>, s, q (stretch / rotation the      *)
+(*            grain object holds now: ubi = L0.U0b^T.s.q^T), ur            *)
+(*            (orientation of the reference grain object), rid (identity   *)
+(*            of that object), hd / dgt (is there a                        *)
+(*            DeformationGradientTensor object / the snapshot it was built *)
+(*            from)]                                                       *)
+(*     actions SetUbi (grain.set_ubi), ChangeRef (a new reference grain    *)
+(*            object, or set_ubi on the reference grain in place),         *)
+(*            AskRef / AskLab (m2, reference = cell | grain) = eps_grain*  *)
+(*            / eps_sample*, MakeDGT(arg kinds), AskDGTRef / AskDGTLab,    *)
+(*            ReadDGT (F, U, VRS).  F = q.s.Q, Q = U0b (cell) | U0b.ur^T.  *)
+(*     invariants HAnswersCurrent (code path on the current state = the    *)
+(*            property's tensor: Q^T.E(s).Q / q.E(s).q^T), HPolarOK        *)
+(*   kind "map"    ImageD11/sinograms/tensor_map.py:581-635 (item / add_map*)
+(*       / UBI setter, clear_cache), :749-840 (dzero_unitcell, eps_sample, *)
+(*       eps_crystal, eps_hydro, eps_devia with their caches in self.maps) *)
+(*     The tensors themselves are those of Spec; here a value is a TAG     *)
+(*     saying which UBI version it was computed from and by which route:   *)
+(*       <<"ubi", f, v>>        kernel on UBI version v, frame f (s | c)   *)
+(*       <<"rot", f, t, uv>>    tag t rotated into frame f with U of uv    *)
+(*       <<"hyd", t>>           trace(t)/3 . I                             *)
+(*       <<"dev", ts, th>>      ts - th                                    *)
+(*     state  hst = [cur (UBI version held now), first (which of           *)
+(*            eps_sample / eps_crystal was computed first since the last   *)
+(*            assignment: the other one is then derived by rotation),      *)
+(*            cache (the code AS IT IS: clear_cache keeps the eps maps),   *)
+(*            rcache (the code with the proposed repair: clear_cache drops *)
+(*            them), pd (the phases dictionary: ids in insertion order)]   *)
+(*     actions MReadFrame / MReadPart (f), MAssign(way = setter | item |   *)
+(*            add_map, version)                                            *)
+(*     invariants MapExpCurrent (the property's answer mentions the        *)
+(*            current version only), MapRepairedCurrent (holds),           *)
+(*            MapAsIsCurrent (VIOLATED - cfg Strain_map_asis: read,        *)
+(*            assign, read), DzeroByKey (reference cell of a voxel is      *)
+(*            looked up by phase id, not by position in the dictionary)    *)
+(*   HEmit prints one JSON record per finished history; the harness binds  *)
+(*   versions / states to exact deformations and replays the operations on *)
+(*   ONE real object.  Histories are drawn by `tlc -simulate` (seeded) in  *)
+(*   Strain_hist_*.cfg and enumerated exhaustively in Strain_map_t.cfg.    *)
 (***************************************************************************)
 EXTENDS ExactLA, Json
 
@@ -52,10 +103,22 @@ CONSTANTS REFS,        \* set of <<L0, <<U0n, n0>> >>
           ROTS,        \* set of <<Rn, n>>
           OBJROTS,     \* rotations quantified over in Objectivity
           OBJU0,       \* reference orientations quantified over in Objectivity
-          OBJU0R       \* right-angle reference orientations for LabObjectivity
+          OBJU0R,      \* right-angle reference orientations for LabObjectivity
+          HKINDS,      \* history kinds explored by HSpec: subset of {"grain", "map"}
+          HREFS,       \* histories: <<L0, U0b>> with a right-angle U0b
+          HSTRETCHES,  \* histories: stretches (tenths) the grain object moves between
+          HROTS,       \* histories: rotations (den <= 5) the grain object moves between
+          HU0R,        \* histories: right-angle orientations of the reference grain object
+          HLEN,        \* operations per grain history (the constructor included)
+          PHASEDICTS,  \* map histories: phase ids in dictionary insertion order
+          NVER,        \* map histories: number of distinct UBI maps
+          MLEN         \* operations per map history (the constructor included)
 
-VARIABLES stage, ref, S, R, ubi, F, k, eref, elab
-vars == <<stage, ref, S, R, ubi, F, k, eref, elab>>
+VARIABLES stage, ref, S, R, ubi, F, k, eref, elab,     \* machine Spec
+          hmode, hst, hist                             \* machine HSpec ("off" in Spec)
+hvars == <<hmode, hst, hist>>
+cvars == <<stage, ref, S, R, ubi, F, k, eref, elab>>
+vars == <<stage, ref, S, R, ubi, F, k, eref, elab, hmode, hst, hist>>
 
 MS == <<-2, -1, 1, 2, 3, 4>>          \* 2m for m = -1, -1/2, 1/2, 1, 3/2, 2
 NONE == <<>>
@@ -128,33 +191,34 @@ NoLab == <<Z3, 0>>
 \* ---------------------------------------------------------------- behaviour
 Init == /\ stage = "start" /\ ref = NONE /\ S = NONE /\ R = NONE /\ ubi = NONE /\ F = NONE
         /\ k = 0 /\ eref = <<>> /\ elab = <<>>
+        /\ hmode = "off" /\ hst = NONE /\ hist = <<>>
 
 PickRef == /\ stage = "start"
            /\ \E r \in REFS : ref' = r
            /\ stage' = "ref"
-           /\ UNCHANGED <<S, R, ubi, F, k, eref, elab>>
+           /\ UNCHANGED <<S, R, ubi, F, k, eref, elab, hmode, hst, hist>>
 
 PickStretch == /\ stage = "ref"
                /\ \E s \in STRETCHES : S' = s
                /\ stage' = "stretch"
-               /\ UNCHANGED <<ref, R, ubi, F, k, eref, elab>>
+               /\ UNCHANGED <<ref, R, ubi, F, k, eref, elab, hmode, hst, hist>>
 
 PickRot == /\ stage = "stretch"
            /\ \E q \in ROTS : /\ R' = q
                               /\ ubi' = UbiOf(ref, S, q)
            /\ stage' = "grain"
-           /\ UNCHANGED <<ref, S, F, k, eref, elab>>
+           /\ UNCHANGED <<ref, S, F, k, eref, elab, hmode, hst, hist>>
 
 Deform == /\ stage = "grain"
           /\ F' = FOf(ubi, Ub0(ref))
           /\ k' = 1
           /\ stage' = "F"
-          /\ UNCHANGED <<ref, S, R, ubi, eref, elab>>
+          /\ UNCHANGED <<ref, S, R, ubi, eref, elab, hmode, hst, hist>>
 
 Ref == /\ stage = "F"
        /\ eref' = Append(eref, CodeRef(F, S, MS[k]))
        /\ stage' = "refd"
-       /\ UNCHANGED <<ref, S, R, ubi, F, k, elab>>
+       /\ UNCHANGED <<ref, S, R, ubi, F, k, elab, hmode, hst, hist>>
 
 Lab == /\ stage = "refd"
        /\ elab' = Append(elab, IF LabExact(S, R) THEN CodeLab(F, VOf(S, R), MS[k])
@@ -162,7 +226,7 @@ Lab == /\ stage = "refd"
                                ELSE NoLab)
        /\ k' = k + 1
        /\ stage' = IF k = Len(MS) THEN "done" ELSE "F"
-       /\ UNCHANGED <<ref, S, R, ubi, F, eref>>
+       /\ UNCHANGED <<ref, S, R, ubi, F, eref, hmode, hst, hist>>
 
 Next == PickRef \/ PickStretch \/ PickRot \/ Deform \/ Ref \/ Lab
 Spec == Init /\ [][Next]_vars
@@ -296,7 +360,7 @@ AllCells == {CCubic, CTetra, COrtho, CMono, CGamma, CTric1, CTric2}
 RefsT == { <<c, RotI>> : c \in AllCells }
          \cup { <<CTric1, Perm3>>, <<CTric1, Rot3(P345, A0, A0)>>, <<CMono, Rot3(A0, A0, P513n)>>,
                 <<CCubic, Rot3(P345, A0, A0)>> }
-RefsQ == { <<CCubic, RotI>>, <<COrtho, RotI>>, <<CTric1, RotI>>, <<CTric2, RotI>>,
+RefsQ == { <<CCubic, RotI>>, <<CGamma, RotI>>, <<CTric1, RotI>>, <<CTric2, RotI>>,
            <<CTric1, Rot3(P345, A0, A0)>>, <<CMono, Perm3>> }
 
 RotsT == { RotI, Rot3(A90,A0,A0), Rot3(A0,A90,A0), Rot3(A0,A0,A90), Rot3(A180,A0,A0), Perm3,
@@ -304,12 +368,230 @@ RotsT == { RotI, Rot3(A90,A0,A0), Rot3(A0,A90,A0), Rot3(A0,A0,A90), Rot3(A180,A0
          \cup { Rot3(P345, A0, A0), Rot3(P513n, A0, A0), Rot3(A0, P345n, A0), Rot3(A0, P513, A0),
                 Rot3(A0, A0, P345), Rot3(A0, A0, P513n) }
          \cup { Rot3(P345, A90, A0), Rot3(A90, P513, A0), Rot3(A270, A0, P345n), Rot3(A0, A180, P513n) }
+         \cup { Rot3(P345, A0, P345n), Rot3(A0, P345n, P345) }       \* two independent Pythagorean axes (den 25)
 RotsQ == { RotI, Perm3, Rot3(A0,A270,A180), Rot3(P345,A0,A0), Rot3(A0,P345n,A0), Rot3(A0,A0,P513n),
-           Rot3(P345, A90, A0), Rot3(A90, P513, A0) }
+           Rot3(P345, A0, P345n), Rot3(A90, P513, A0) }
 
 ObjRots == { Rot3(A270,A0,A90), Rot3(A0,P345,A0) }
 ObjU0 == { Perm3, Rot3(P345n,A0,A0) }
 ObjU0R == { RotI, Perm3, Rot3(A0,A0,A90) }
+
+\* ================================================================ machine HSpec: histories
+HMS == <<-2, -1, 0, 1, 2, 3, 4>>     \* 2m; m = 0 (logarithmic) is answered NoLab here, finished by the harness
+CaseOff == /\ stage = "hist" /\ ref = NONE /\ S = NONE /\ R = NONE /\ ubi = NONE /\ F = NONE
+           /\ k = 0 /\ eref = <<>> /\ elab = <<>>
+HLast == hist[Len(hist)]
+
+\* ---------------------------------------------------------------- kind "grain"
+\* reference handed to eps_*(dzero_cell = ..): the six cell parameters (ub0 = B0, Q = U0b) or the
+\* reference grain object (ub0 = ur.B0, Q = U0b.ur^T); the code's F = ubi^T.ub0^T is then q.s.Q
+GQ(st, rk) == IF rk = "cell" THEN st.base[2] ELSE SMM(st.base[2], ST(st.ur))
+GUb0(st, rk) == IF rk = "cell" THEN B0(st.base) ELSE SMM(st.ur, B0(st.base))
+GF(st, rk) == FOf(UbiOf(st.base, st.s, st.q), GUb0(st, rk))                \* finite_strain.py:61
+\* polar factors of F = q.s.Q:  rotation q.Q, right stretch Q^T.s.Q, left stretch q.s.q^T
+CodeAns(f, s, q, Q, m2, fr) == IF m2 = 0 THEN NoLab
+                               ELSE IF fr = "ref" THEN CodeRef(f, ConjT(Q, s), m2)
+                               ELSE CodeLab(f, VOf(s, q), m2)
+PropAns(s, q, Q, m2, fr) == IF m2 = 0 THEN NoLab
+                            ELSE IF fr = "ref" THEN ConjT(Q, PropRef(s, m2))   \* E(S) seen from the reference
+                            ELSE PropLab(s, q, m2)                              \* R.E(S).R^T
+
+\* (the first rotation is fixed - SetUbi moves on from it - so that `tlc -simulate`, which draws the
+\* initial state uniformly, starts about as many map histories as grain histories)
+HInitGrain == \E r \in HREFS, s \in HSTRETCHES :
+                 LET q == CHOOSE x \in HROTS : x[2] > 1
+                 IN
+                 /\ hmode = "grain"
+                 /\ hst = [base |-> r, s |-> s, q |-> q, ur |-> r[2], rid |-> 1, hd |-> FALSE, dgt |-> NONE]
+                 /\ hist = << [op |-> "new", L0 |-> r[1], U0 |-> r[2], S |-> s, R |-> q] >>
+
+HGo == hmode = "grain" /\ Len(hist) < HLEN
+
+SetUbi == /\ HGo
+          /\ \E s \in HSTRETCHES, q \in HROTS :
+                /\ <<s, q>> # <<hst.s, hst.q>>
+                /\ hst' = [hst EXCEPT !.s = s, !.q = q]
+                /\ hist' = Append(hist, [op |-> "set_ubi", S |-> s, R |-> q])
+          /\ UNCHANGED <<cvars, hmode>>
+
+\* a NEW reference grain object (rid + 1), or the same object re-oriented in place by g0.set_ubi
+ChangeRef == /\ HGo
+             /\ \E u \in HU0R, inplace \in BOOLEAN :
+                   /\ u # hst.ur
+                   /\ hst' = [hst EXCEPT !.ur = u, !.rid = IF inplace THEN @ ELSE @ + 1]
+                   /\ hist' = Append(hist, [op |-> IF inplace THEN "reorient" ELSE "newref", U0r |-> u])
+             /\ UNCHANGED <<cvars, hmode>>
+
+\* (`tlc -simulate` draws the ACTION first, then one of its successors: asking is split by frame so
+\* that about half of the steps of a history are questions)
+AskF(fr) == /\ HGo
+            /\ \E i \in DOMAIN HMS, rk \in {"cell", "grain"} :
+                  LET Q == GQ(hst, rk)
+                  IN  hist' = Append(hist, [op |-> "ask", m2 |-> HMS[i], frame |-> fr, rk |-> rk, Q |-> Q,
+                                            ans |-> CodeAns(GF(hst, rk), hst.s, hst.q, Q, HMS[i], fr)])
+            /\ UNCHANGED <<cvars, hmode, hst>>
+AskRef == AskF("ref")
+AskLab == AskF("lab")
+
+\* DeformationGradientTensor(ubi | grain, ub0 | reference grain): F is taken at construction
+MakeDGT == /\ HGo
+           /\ \E ak \in {"array", "grain"}, bk \in {"array", "grain"}, rk \in {"cell", "grain"} :
+                 /\ (rk = "cell" => bk = "array")
+                 /\ hst' = [hst EXCEPT !.hd = TRUE, !.dgt = [s |-> hst.s, q |-> hst.q, Q |-> GQ(hst, rk),
+                                               F |-> GF(hst, rk)]]
+                 /\ hist' = Append(hist, [op |-> "dgt", ak |-> ak, bk |-> bk, rk |-> rk,
+                                          F |-> GF(hst, rk)])
+           /\ UNCHANGED <<cvars, hmode>>
+
+AskDGTF(fr) == /\ HGo /\ hst.hd
+               /\ \E i \in DOMAIN HMS :
+                     LET d == hst.dgt
+                     IN  hist' = Append(hist, [op |-> "dask", m2 |-> HMS[i], frame |-> fr, Q |-> d.Q,
+                                               ans |-> CodeAns(d.F, d.s, d.q, d.Q, HMS[i], fr)])
+               /\ UNCHANGED <<cvars, hmode, hst>>
+AskDGTRef == AskDGTF("ref")
+AskDGTLab == AskDGTF("lab")
+
+ReadDGT == /\ HGo /\ hst.hd
+           /\ \E fld \in {"F", "U", "VRS"} :
+                 LET d == hst.dgt
+                 IN  hist' = Append(hist, [op |-> "dread", field |-> fld,
+                                           val |-> IF fld = "F" THEN <<d.F>>
+                                                   ELSE IF fld = "U" THEN <<SMM(d.q, d.Q)>>
+                                                   ELSE <<VOf(d.s, d.q), SMM(d.q, d.Q), ConjT(d.Q, d.s)>>])
+           /\ UNCHANGED <<cvars, hmode, hst>>
+
+\* every answer is the exact tensor of the state the object is in NOW (Ask / AskDGT leave hst alone,
+\* so the state after the action is the state that was asked)
+HAnswersCurrent ==
+    (hmode = "grain" /\ HLast.op \in {"ask", "dask"}) =>
+        LET a == HLast
+            s == IF a.op = "ask" THEN hst.s ELSE hst.dgt.s
+            q == IF a.op = "ask" THEN hst.q ELSE hst.dgt.q
+            Q == IF a.op = "ask" THEN GQ(hst, a.rk) ELSE hst.dgt.Q
+        IN  /\ a.Q = Q
+            /\ a.ans = PropAns(s, q, Q, a.m2, a.frame)
+            /\ (a.m2 # 0 => IsSym(a.ans[1]))
+            /\ (a.m2 # 0 => ((a.ans[1] = Z3) <=> (s[1] = T3(MScale(s[2], I3)))))
+
+\* the model's factors are the polar factors of the code's F (unique for det F > 0)
+HPolarOK ==
+    (hmode = "grain" /\ HLast.op = "dgt") =>
+        LET d == hst.dgt
+            rq == SMM(d.q, d.Q)
+            sq == ConjT(d.Q, d.s)
+            v == VOf(d.s, d.q)
+        IN  /\ d.F = SMM(SMM(d.q, d.s), d.Q)
+            /\ IsRot(rq) /\ IsSym(sq[1]) /\ PosDef(sq[1]) /\ IsSym(v[1]) /\ PosDef(v[1])
+            /\ d.F = SMM(rq, sq) /\ d.F = SMM(v, rq)
+
+\* ---------------------------------------------------------------- kind "map"
+MAPS == {"s", "c", "h", "d"}         \* eps_sample, eps_crystal, eps_hydro, eps_devia
+NoTag == <<>>
+UbiTag(f, v) == <<"ubi", f, v>>
+RotTag(f, t, uv) == <<"rot", f, t, uv>>
+HydTag(t) == <<"hyd", t>>
+DevTag(ts, th) == <<"dev", ts, th>>
+NoCache == [f \in MAPS |-> NoTag]
+
+\* tensor_map.py:764-840: a read returns <<tag, cache afterwards>>.  U, B, unitcell ARE dropped by
+\* clear_cache, so a rotation always uses the U of the current version v.
+RdS(c, v) == IF c["s"] # NoTag THEN <<c["s"], c>>
+             ELSE IF c["c"] # NoTag THEN LET t == RotTag("s", c["c"], v) IN <<t, [c EXCEPT !["s"] = t]>>
+             ELSE LET t == UbiTag("s", v) IN <<t, [c EXCEPT !["s"] = t]>>
+RdC(c, v) == IF c["c"] # NoTag THEN <<c["c"], c>>
+             ELSE IF c["s"] # NoTag THEN LET t == RotTag("c", c["s"], v) IN <<t, [c EXCEPT !["c"] = t]>>
+             ELSE LET t == UbiTag("c", v) IN <<t, [c EXCEPT !["c"] = t]>>
+RdH(c, v) == IF c["h"] # NoTag THEN <<c["h"], c>>
+             ELSE LET r == RdS(c, v)
+                      t == HydTag(r[1])
+                  IN  <<t, [r[2] EXCEPT !["h"] = t]>>
+RdD(c, v) == IF c["d"] # NoTag THEN <<c["d"], c>>
+             ELSE LET r1 == RdS(c, v)
+                      r2 == RdH(r1[2], v)
+                      t == DevTag(r1[1], r2[1])
+                  IN  <<t, [r2[2] EXCEPT !["d"] = t]>>
+Rd(f, c, v) == CASE f = "s" -> RdS(c, v) [] f = "c" -> RdC(c, v) [] f = "h" -> RdH(c, v) [] f = "d" -> RdD(c, v)
+
+\* the property: what a map that holds the CURRENT UBI answers, given which of eps_sample /
+\* eps_crystal was computed first since the assignment (the other one is derived by rotation)
+FirstAfter(first, f) == IF first # "n" THEN first ELSE IF f = "c" THEN "c" ELSE "s"
+ExpS(f1, v) == IF f1 = "c" THEN RotTag("s", UbiTag("c", v), v) ELSE UbiTag("s", v)
+ExpC(f1, v) == IF f1 = "s" THEN RotTag("c", UbiTag("s", v), v) ELSE UbiTag("c", v)
+ExpTag(first, f, v) == LET f1 == FirstAfter(first, f)
+                       IN  CASE f = "s" -> ExpS(f1, v)
+                             [] f = "c" -> ExpC(f1, v)
+                             [] f = "h" -> HydTag(ExpS(f1, v))
+                             [] f = "d" -> DevTag(ExpS(f1, v), HydTag(ExpS(f1, v)))
+RECURSIVE TagCurrent(_, _)
+TagCurrent(t, v) == CASE t[1] = "ubi" -> t[3] = v
+                      [] t[1] = "rot" -> t[4] = v /\ TagCurrent(t[3], v)
+                      [] t[1] = "hyd" -> TagCurrent(t[2], v)
+                      [] t[1] = "dev" -> TagCurrent(t[2], v) /\ TagCurrent(t[3], v)
+
+\* reference cell of a voxel: tensor_map.py:749-762 looks the phase id up as a dictionary KEY.
+\* pd = ids in insertion order; cell group i belongs to id pd[i]; 0 = no reference (NaN cell)
+PIDS == -1..6
+DzOf(pd, p) == IF \E i \in DOMAIN pd : pd[i] = p THEN CHOOSE i \in DOMAIN pd : pd[i] = p ELSE 0
+DzTable(pd) == [j \in 1..8 |-> DzOf(pd, j - 2)]           \* index j = phase id + 2
+
+HInitMap == \E pd \in PHASEDICTS :
+               /\ hmode = "map"
+               /\ hst = [cur |-> 1, first |-> "n", cache |-> NoCache, rcache |-> NoCache, pd |-> pd]
+               /\ hist = << [op |-> "newmap", pd |-> pd, dz |-> DzTable(pd), ver |-> 1] >>
+
+MGo == hmode = "map" /\ Len(hist) < MLEN
+
+MReadIn(names) ==
+         /\ MGo
+         /\ \E f \in names :
+               LET a == Rd(f, hst.cache, hst.cur)
+                   r == Rd(f, hst.rcache, hst.cur)
+               IN  /\ hst' = [hst EXCEPT !.cache = a[2], !.rcache = r[2], !.first = FirstAfter(hst.first, f)]
+                   /\ hist' = Append(hist, [op |-> "read", f |-> f, exp |-> ExpTag(hst.first, f, hst.cur),
+                                            asis |-> a[1], rep |-> r[1], cur |-> hst.cur])
+         /\ UNCHANGED <<cvars, hmode>>
+MReadFrame == MReadIn({"s", "c"})
+MReadPart == MReadIn({"h", "d"})
+
+\* T.UBI = x (setter :632-635), T["UBI"] = x (:581-583), T.add_map("UBI", x) (:612-616): all three call
+\* clear_cache (:589-593), which drops U, B, UB, mt, unitcell, euler - and, as the code is, NOT the eps maps
+MAssign == /\ MGo
+           /\ \E w \in {"setter", "item", "add_map"}, v \in 1..NVER :
+                 /\ v # hst.cur
+                 /\ hst' = [hst EXCEPT !.cur = v, !.first = "n", !.rcache = NoCache]
+                 /\ hist' = Append(hist, [op |-> "assign", way |-> w, ver |-> v])
+           /\ UNCHANGED <<cvars, hmode>>
+
+MapExpCurrent == (hmode = "map" /\ HLast.op = "read") => TagCurrent(HLast.exp, hst.cur)
+MapRepairedCurrent == (hmode = "map" /\ HLast.op = "read") => HLast.rep = HLast.exp
+MapAsIsCurrent == (hmode = "map" /\ HLast.op = "read") => HLast.asis = HLast.exp
+DzeroByKey == hmode = "map" =>
+                 /\ \A i \in DOMAIN hst.pd : DzOf(hst.pd, hst.pd[i]) = i
+                 /\ \A p \in PIDS : (\A i \in DOMAIN hst.pd : hst.pd[i] # p) => DzOf(hst.pd, p) = 0
+
+\* ---------------------------------------------------------------- the machine
+HInit == /\ CaseOff
+         /\ \/ ("grain" \in HKINDS /\ HInitGrain)
+            \/ ("map" \in HKINDS /\ HInitMap)
+HNext == SetUbi \/ ChangeRef \/ AskRef \/ AskLab \/ MakeDGT \/ AskDGTRef \/ AskDGTLab \/ ReadDGT
+         \/ MReadFrame \/ MReadPart \/ MAssign
+HSpec == HInit /\ [][HNext]_vars
+HDone == (hmode = "grain" /\ Len(hist) = HLEN) \/ (hmode = "map" /\ Len(hist) = MLEN)
+HEmit == ~HDone \/ PrintT("@@" \o ToJson([kind |-> hmode, hist |-> hist]))
+
+HKindsAll == {"grain", "map"}
+HKindsMap == {"map"}
+HKindsGrain == {"grain"}
+HRefsQ == { <<CTric1, RotI>>, <<CGamma, Perm3>> }
+HRefsT == { <<CTric1, RotI>>, <<CGamma, Perm3>>, <<CMono, Rot3(A0,A0,A90)>>, <<CCubic, RotI>> }
+HStretchQ == { Str(e, 10) : e \in { <<0,0,0,0,0,0>>, <<1,-1,0,0,1,0>>, <<-1,0,1,1,-1,1>>, <<0,1,0,0,0,0>> } }
+HStretchT == HStretchQ \cup { Str(e, 10) : e \in { <<1,1,1,1,1,1>>, <<0,0,0,-1,-1,-1>>, <<-1,-1,-1,0,0,0>> } }
+HRotsQ == { RotI, Perm3, Rot3(P345, A0, A0), Rot3(A0, P345n, A180) }
+HRotsT == HRotsQ \cup { Rot3(A0, A0, P345), Rot3(A270, A90, A0) }
+HU0RAll == { RotI, Perm3, Rot3(A0,A0,A90), Rot3(A180,A270,A0) }
+PhaseDicts == { <<0>>, <<3>>, <<0, 1, 2>>, <<1, 2, 3>>, <<0, 2, 5>>, <<2, 1, 0>>, <<1, 0>>, <<5, 0, 2>> }
+PhaseDictsMapT == { <<0, 1>>, <<5, 0, 2>> }
 
 \* ---------------------------------------------------------------- sanity of the constants
 ASSUME \A q \in ROTS \cup OBJROTS \cup OBJU0 \cup OBJU0R : IsRot(q)
@@ -318,6 +600,13 @@ ASSUME \A s \in STRETCHES : /\ IsSym(s[1]) /\ PosDef(s[1]) /\ s[2] \in {10, 20}
                             /\ \A i \in Idx : 10 * RowSum(T3(MSub(s[1], MScale(s[2], I3))), i) <= 3 * s[2]
                             /\ \A i, j \in Idx : 10 * Abs(s[1][i][j] - (IF i = j THEN s[2] ELSE 0)) <= s[2]
 ASSUME \A q \in OBJU0R : q[2] = 1
+ASSUME \A r \in HREFS : IsRot(r[2]) /\ r[2][2] = 1 /\ IsUpper(r[1]) /\ Det(r[1]) > 0
+ASSUME (\A q \in HROTS : IsRot(q) /\ q[2] \in {1, 5}) /\ (\E q \in HROTS : q[2] > 1)
+ASSUME \A u \in HU0R : IsRot(u) /\ u[2] = 1
+ASSUME \A s \in HSTRETCHES : IsSym(s[1]) /\ PosDef(s[1]) /\ s[2] = 10
+ASSUME \A pd \in PHASEDICTS : /\ \A i \in DOMAIN pd : pd[i] \in 0..5
+                              /\ \A i, j \in DOMAIN pd : i # j => pd[i] # pd[j]
+ASSUME HLEN >= 2 /\ MLEN >= 2 /\ NVER >= 2 /\ HKINDS \subseteq HKindsAll
 ASSUME SInv(<<Diag(2,4,5), 10>>) = <<Diag(10,5,4), 2>>
 ASSUME Reduce(<<Diag(4,-6,8), 10>>) = <<Diag(2,-3,4), 5>>
 ASSUME SethHill(SPow(<<Diag(11,10,9), 10>>, 2), 2) = <<Diag(21, 0, -19), 200>>
